@@ -23,7 +23,7 @@ RULES = {
           "invalidated by enable_queries()",
     "R3": "the memo decorators are atomic: lookup, call of the wrapped function and store happen inside one `with lock` on "
           "an RLock created once per decorated function; invalidate takes the same lock; terminal_size_cached stores the "
-          "terminal size it compared; every value stored by terminal_size_cached (into a variable or an entry) is the pair (value, the terminal size compared)",
+          "terminal size it compared; every value stored by terminal_size_cached (into a variable or an entry) is the pair (value, the terminal size compared); the stamp is the library's get_terminal_size(); only utils.get_terminal_size calls shutil's",
     "R4": "get_cell_size: the cache key compared and the key stored are the same get_terminal_size() value read once under "
           "_cell_size_lock, and every path that computes a size reaches the store before returning (hit edges are recognised from the traced tests; every return reachable without a hit edge is dominated by the store)",
     "R5": "set_cell_ratio stores a number for FIXED/explicit ratios and None for DYNAMIC; get_cell_ratio returns the stored "
@@ -341,5 +341,6 @@ MUTANTS = [
       "        utils._queries_enabled = True\n        getattr(utils.get_fg_bg_colors, \"_invalidate_cache\")()\n        getattr(utils.get_terminal_name_version, \"_invalidate_cache\")()\n        with utils._cell_size_lock:\n            utils._cell_size_cache[:] = (0,) * 4\n",
       "        getattr(utils.get_fg_bg_colors, \"_invalidate_cache\")()\n        getattr(utils.get_terminal_name_version, \"_invalidate_cache\")()\n        with utils._cell_size_lock:\n            utils._cell_size_cache[:] = (0,) * 4\n        utils._queries_enabled = True\n", {"R1"}),
     M("memo-key-names-only", U, "cached", "arguments = (args, tuple(kwargs.items()))", "arguments = (args, tuple(sorted(kwargs)))", {"MEMO"}),
+    M("stamp-from-shutil", U, "terminal_size_cached", "            ts = get_terminal_size()\n", "            ts = _get_terminal_size()\n", {"R3"}),
     M("twin-zero-list", I, "enable_win_size_swap", "utils._cell_size_cache[:] = (0,) * 4", "utils._cell_size_cache[:] = [0, 0, 0, 0]", twin=True),
 ]
